@@ -83,11 +83,21 @@ enum Op {
         keep_older: bool,
     },
     Reset,
+    /// `shutdown()` (bump, checkpoint, stale-file scan). `fail`: a directory sits where the
+    /// checkpoint's temporary file goes, so the checkpoint cannot be written and the call must
+    /// report the error; the files of earlier checkpoints are all it may leave behind
+    Shutdown {
+        fail: bool,
+    },
+    /// a new session: a fresh manager of the same capacity on the same directory, `run_cycle(0, 1)`;
+    /// the harness touches no file. It must come up with the state of the last checkpoint that was
+    /// written successfully (empty if there is none)
+    Restart,
 }
 
 impl Op {
     fn uses_dir(&self) -> bool {
-        matches!(self, Op::Checkpoint | Op::Reload | Op::RunCycle { .. })
+        matches!(self, Op::Checkpoint | Op::Reload | Op::RunCycle { .. } | Op::Shutdown { .. } | Op::Restart)
     }
 }
 
@@ -99,6 +109,10 @@ struct Case {
     /// whether key #0 is the all-zero key
     zero_key: bool,
     ops: Vec<Op>,
+    /// the history starts on a manager that loaded an (empty) checkpoint of this generation —
+    /// the only way a manager gets a generation other than the initial one
+    #[serde(default)]
+    start_gen: Option<u64>,
 }
 
 /// Key #i of the pool. Distinct by construction: #0..#3 are fixed patterns, the
@@ -378,6 +392,9 @@ struct Flags {
     reset_nonempty: bool,
     remove_hit: bool,
     touch_hit: bool,
+    shutdown_failed: bool,
+    restarted: bool,
+    restart_dropped_unsaved: bool,
 }
 
 enum Stop {
@@ -435,6 +452,20 @@ fn check_inner(c: &Case, known: &Known, replay: bool) -> Verdict {
 
     let mut mgr = LruManager::new(cap as u32, dir_path.clone());
     let mut model = Model { cap, q: VecDeque::new() };
+    // state of the last checkpoint that was written successfully and is still in the directory
+    let mut disk: Option<VecDeque<usize>> = None;
+    if let (Some(g), true) = (c.start_gen.filter(|g| *g != 0), dir.is_some()) {
+        // an empty checkpoint under the name of generation g, loaded by a fresh manager
+        let from = cascette_client_storage::lru::lru_file::lru_file_path(&dir_path, mgr.generation());
+        let to = cascette_client_storage::lru::lru_file::lru_file_path(&dir_path, g);
+        let made = block_on(mgr.checkpoint_to_disk()).map_err(|e| e.to_string()).and_then(|()| if from == to { Ok(()) } else { std::fs::rename(&from, &to).map_err(|e| e.to_string()) });
+        mgr = LruManager::new(cap as u32, dir_path.clone());
+        if let Err(e) = made.and_then(|()| block_on(mgr.load_from_disk(g)).map_err(|e| e.to_string())) {
+            INFRA.lock().unwrap().push(format!("cannot start at generation {g:#x}: {e}"));
+            return Verdict::pass();
+        }
+        disk = Some(VecDeque::new());
+    }
     // entries evicted through evict_tail/evict_to_target/run_cycle since the slot
     // allocator was last rebuilt (new/load/reset) — only used to choose the key
     // of a divergence (K_LEAK or a generic one), never to accept one.
@@ -591,6 +622,7 @@ fn check_inner(c: &Case, known: &Known, replay: bool) -> Verdict {
                     outcome = Some(Stop::Infra(format!("checkpoint_to_disk failed in a fresh directory: {e}")));
                     break 'ops;
                 }
+                disk = Some(pre.clone());
                 let st = cmp_state(&observe(&mgr, &keys, cap), &model.q, c, &keys);
                 if let Some(s) = finish_op(opname, ix, c, st, specific, zload_context, known, &mut hits) {
                     outcome = s;
@@ -603,6 +635,7 @@ fn check_inner(c: &Case, known: &Known, replay: bool) -> Verdict {
                     outcome = Some(Stop::Infra(format!("checkpoint_to_disk failed in a fresh directory: {e}")));
                     break 'ops;
                 }
+                disk = Some(pre.clone());
                 let g = mgr.generation();
                 let mut fresh = LruManager::new(cap as u32, dir_path.clone());
                 let loaded = block_on(fresh.load_from_disk(g));
@@ -633,6 +666,7 @@ fn check_inner(c: &Case, known: &Known, replay: bool) -> Verdict {
                         outcome = Some(Stop::Infra(format!("checkpoint_to_disk failed in a fresh directory: {e}")));
                         break 'ops;
                     }
+                    disk = Some(pre.clone());
                     let keep = cascette_client_storage::lru::lru_file::lru_file_path(&dir_path, mgr.generation());
                     let cleaned = if keep_older {
                         // only files of a higher generation than the checkpoint just written go (a
@@ -656,9 +690,12 @@ fn check_inner(c: &Case, known: &Known, replay: bool) -> Verdict {
                         f.zero_reloaded = true;
                         zload_context = true;
                     }
-                } else if let Err(e) = remove_lru_files(&dir_path, None) {
-                    outcome = Some(Stop::Infra(format!("cannot clean case directory: {e}")));
-                    break 'ops;
+                } else {
+                    disk = None;
+                    if let Err(e) = remove_lru_files(&dir_path, None) {
+                        outcome = Some(Stop::Infra(format!("cannot clean case directory: {e}")));
+                        break 'ops;
+                    }
                 }
                 let res = block_on(mgr.run_cycle(limit, avg));
                 let w = model.evict_to_size(limit, avg);
@@ -719,6 +756,71 @@ fn check_inner(c: &Case, known: &Known, replay: bool) -> Verdict {
                     break 'ops;
                 }
             }
+            Op::Shutdown { fail } => {
+                opname = if fail { "shutdown_failing" } else { "shutdown" };
+                // the generation shutdown() checkpoints under (0 is reserved: the wrap goes to 1)
+                let next = match mgr.generation().wrapping_add(1) {
+                    0 => 1,
+                    g => g,
+                };
+                let block = cascette_client_storage::lru::lru_file::lru_file_path(&dir_path, next).with_extension("tmp");
+                if fail {
+                    if let Err(e) = std::fs::create_dir(&block) {
+                        outcome = Some(Stop::Infra(format!("cannot block the checkpoint's temporary file: {e}")));
+                        break 'ops;
+                    }
+                }
+                let r = block_on(mgr.shutdown());
+                if fail {
+                    let _ = std::fs::remove_dir(&block);
+                    f.shutdown_failed = true;
+                }
+                match (fail, r) {
+                    (false, Err(e)) => specific = Some(("C17:lru:shutdown:failed".into(), format!("shutdown() in a writable directory: {e}"))),
+                    (true, Err(_)) => {}
+                    // reported success: then the checkpoint must be there
+                    (_, Ok(())) => disk = Some(pre.clone()),
+                }
+                let st = cmp_state(&observe(&mgr, &keys, cap), &model.q, c, &keys);
+                if let Some(s) = finish_op(opname, ix, c, st, specific, zload_context, known, &mut hits) {
+                    outcome = s;
+                    break 'ops;
+                }
+            }
+            Op::Restart => {
+                opname = "restart";
+                mgr = LruManager::new(cap as u32, dir_path.clone());
+                leaked = 0;
+                let res = block_on(mgr.run_cycle(0, 1));
+                model.q = disk.clone().unwrap_or_default();
+                f.reloaded = true;
+                f.restarted = true;
+                if !model.q.is_empty() {
+                    f.reloaded_nonempty = true;
+                    if model.q != pre {
+                        f.restart_dropped_unsaved = true;
+                    }
+                }
+                if c.zero_key && model.q.contains(&0) {
+                    f.zero_reloaded = true;
+                    zload_context = true;
+                }
+                match res {
+                    Err(e) => specific = Some(("C17:lru:restart:failed".into(), format!("run_cycle(0,1) of a new session: {e}"))),
+                    Ok(stats) if stats.loaded_entries != model.q.len() => {
+                        specific = Some((
+                            "C17:lru:restart:loaded-entries-differs".into(),
+                            format!("a new session loaded {} entries, the last checkpoint written successfully held {}", stats.loaded_entries, model.q.len()),
+                        ));
+                    }
+                    Ok(_) => {}
+                }
+                let st = cmp_state(&observe(&mgr, &keys, cap), &model.q, c, &keys);
+                if let Some(s) = finish_op(opname, ix, c, st, specific, zload_context, known, &mut hits) {
+                    outcome = s;
+                    break 'ops;
+                }
+            }
         }
         executed = ix + 1;
     }
@@ -740,6 +842,10 @@ fn check_inner(c: &Case, known: &Known, replay: bool) -> Verdict {
         .class_if(f.cycle_evicted, "run-cycle-evicted")
         .class_if(f.cycle_with_older_files, "run-cycle-fresh-beside-older-checkpoint-files")
         .class_if(f.reset_nonempty, "reset-nonempty")
+        .class_if(f.restarted, "restart-of-a-new-session")
+        .class_if(f.restart_dropped_unsaved, "restart-returns-to-an-older-checkpoint")
+        .class_if(f.shutdown_failed, "shutdown-that-cannot-write-its-checkpoint")
+        .class_if(c.start_gen.is_some_and(|g| g >= u64::MAX - 2) && f.restarted, "restart-near-the-generation-wrap")
         .class_if(stopped_by_known, "stopped-at-known-finding")
         .class_if(executed >= 50, "executed>=50-ops")
         .class_if(c.cap >= 16, "cap>=16");
@@ -900,8 +1006,52 @@ fn enum_cases(max_len: usize, n_persist: usize) -> Box<dyn Iterator<Item = Case>
             .filter(move |d| d.iter().filter(|&&x| x >= n_mem).count() == n_persist)
             .flat_map(move |d| {
                 let ops: Vec<Op> = d.iter().map(|&x| alpha[x]).collect();
-                (1..=3u32).map(move |cap| Case { cap, pool: 4, zero_key: true, ops: ops.clone() })
+                (1..=3u32).map(move |cap| Case { cap, pool: 4, zero_key: true, ops: ops.clone(), start_gen: None })
             })
+    }))
+}
+
+/// Sessions: every sequence of length 0..=max_len over touches, bump, checkpoint, shutdown (that
+/// succeeds or cannot write its checkpoint) and restart, for managers that start at an ordinary
+/// generation; and, for managers that start within three generations of the u64 wrap, over the
+/// same alphabet with every bump directly followed by a checkpoint and no failing shutdown (two
+/// bumps without a checkpoint between them across the wrap leave a numerically larger file of a
+/// logically older generation behind — out of this section's scope).
+fn lifecycle_cases(max_len: usize) -> Box<dyn Iterator<Item = Case> + Send> {
+    let plain: Vec<Vec<Op>> = vec![
+        vec![Op::Touch(0)],
+        vec![Op::Touch(1)],
+        vec![Op::Touch(2)],
+        vec![Op::Bump],
+        vec![Op::Checkpoint],
+        vec![Op::Shutdown { fail: false }],
+        vec![Op::Shutdown { fail: true }],
+        vec![Op::Restart],
+    ];
+    let wrap: Vec<Vec<Op>> = vec![
+        vec![Op::Touch(0)],
+        vec![Op::Touch(1)],
+        vec![Op::Touch(2)],
+        vec![Op::Bump, Op::Checkpoint],
+        vec![Op::Checkpoint],
+        vec![Op::Shutdown { fail: false }],
+        vec![Op::Restart],
+    ];
+    let starts: Vec<(Option<u64>, Vec<Vec<Op>>)> = vec![
+        (None, plain.clone()),
+        (Some(0xFFFF_FFFE), plain),
+        (Some(u64::MAX - 2), wrap.clone()),
+        (Some(u64::MAX - 1), wrap.clone()),
+        (Some(u64::MAX), wrap),
+    ];
+    Box::new(starts.into_iter().flat_map(move |(start_gen, alpha)| {
+        (0..=max_len).flat_map(move |len| {
+            let alpha = alpha.clone();
+            Odometer::new(alpha.len(), len).flat_map(move |d| {
+                let ops: Vec<Op> = d.iter().flat_map(|&x| alpha[x].clone()).collect();
+                [2u32, 3].into_iter().map(move |cap| Case { cap, pool: 4, zero_key: false, ops: ops.clone(), start_gen })
+            })
+        })
     }))
 }
 
@@ -916,6 +1066,8 @@ enum RawOp {
     Reload,
     RunCycle { fresh: bool, no_limit: bool, avg_sel: u16, units: u16, off: u16 },
     Reset,
+    Shutdown { fail: bool },
+    Restart,
 }
 
 const AVGS: [u64; 4] = [1, 7, 100, 4096];
@@ -944,6 +1096,8 @@ fn resolve(r: &RawOp, cap: u32, pool: u16) -> Op {
             Op::RunCycle { fresh, limit: if no_limit { 0 } else { limit }, avg, keep_older: fresh && off & 1 == 1 }
         }
         RawOp::Reset => Op::Reset,
+        RawOp::Shutdown { fail } => Op::Shutdown { fail },
+        RawOp::Restart => Op::Restart,
     }
 }
 
@@ -979,6 +1133,8 @@ fn raw_op(profile: u8) -> BoxedStrategy<RawOp> {
             4 => Just(RawOp::Reload),
             4 => raw_run_cycle(false),
             1 => Just(RawOp::Reset),
+            2 => any::<bool>().prop_map(|fail| RawOp::Shutdown { fail }),
+            2 => Just(RawOp::Restart),
         ]
         .boxed(),
         1 => prop_oneof![
@@ -989,6 +1145,8 @@ fn raw_op(profile: u8) -> BoxedStrategy<RawOp> {
             5 => Just(RawOp::Reload),
             3 => raw_run_cycle(true),
             1 => Just(RawOp::Reset),
+            2 => any::<bool>().prop_map(|fail| RawOp::Shutdown { fail }),
+            2 => Just(RawOp::Restart),
         ]
         .boxed(),
         _ => prop_oneof![
@@ -1001,6 +1159,8 @@ fn raw_op(profile: u8) -> BoxedStrategy<RawOp> {
             12 => Just(RawOp::Reload),
             12 => raw_run_cycle(false),
             1 => Just(RawOp::Reset),
+            8 => any::<bool>().prop_map(|fail| RawOp::Shutdown { fail }),
+            8 => Just(RawOp::Restart),
         ]
         .boxed(),
     }
@@ -1019,7 +1179,7 @@ fn random_case(max_cap: u32, max_len: usize) -> BoxedStrategy<Case> {
             // pool from `cap` (never overflows) to 2·cap+3 keys
             let pool = (cap as usize + pick_idx(extra, cap as usize + 4)) as u16;
             let ops = raw.iter().map(|r| resolve(r, cap, pool)).collect();
-            Case { cap, pool, zero_key, ops }
+            Case { cap, pool, zero_key, ops, start_gen: None }
         })
         .boxed()
 }
@@ -1184,6 +1344,25 @@ fn main() {
             ),
             move || enum_cases(max_len_persist, 1),
             move |c: &Case| check("lru-all-short-histories-persist", c, &k1, replay),
+        )
+        .shards(env_shards("C17_SHARDS_PER", 16)),
+    );
+    drain_infra(&mut ck);
+
+    // 1b. sessions: shutdown (also one that cannot write), restart, generations at the u64 wrap
+    let max_len_life = tier.pick(5usize, 6usize);
+    let k1 = known.clone();
+    ck.run(
+        Section::enumerate(
+            "lru-sessions",
+            format!(
+                "every sequence of length 0..={max_len_life} over touch(k0|k1|k2), bump_generation, checkpoint_to_disk, shutdown, shutdown whose checkpoint cannot be written (a \
+                 directory sits at the temporary file's path), restart (fresh manager + run_cycle(0,1), the harness touches no file: it must come up with the last \
+                 checkpoint written successfully) for managers starting at generation 1 and 0xFFFFFFFE; and over touch, bump+checkpoint, checkpoint, shutdown, restart \
+                 for managers starting at generation u64::MAX-2, -1, -0 (the wrap to 1); capacities 2 and 3"
+            ),
+            move || lifecycle_cases(max_len_life),
+            move |c: &Case| check("lru-sessions", c, &k1, replay),
         )
         .shards(env_shards("C17_SHARDS_PER", 16)),
     );
